@@ -295,7 +295,7 @@ def m3(prog, ctx):
                "design (documented exception: they passed resolution); only graph evidence loops are checked")
 
 
-def m4(prog, ctx):
+def m4(prog, ctx, tag="M4"):
     init = prog.func_inlined(ISO, "BasicReadAssignment.__init__")
     des = prog.func_inlined(ISO, "BasicReadAssignment.deserialize")
     abr = prog.func_inlined(ISO, "BasicReadAssignment.deserialize_from_read_assignment")
@@ -320,11 +320,11 @@ def m4(prog, ctx):
     a_init, a_des, a_abr = attrs(init, "self"), attrs(des, O_des), attrs(abr, O_abr)
     for name, a, f in (("deserialize", a_des, des), ("deserialize_from_read_assignment", a_abr, abr)):
         if a != a_init:
-            ctx.fail("M4", f, f._qualname, "fields %s" % sorted(a ^ a_init),
+            ctx.fail(tag, f, f._qualname, "fields %s" % sorted(a ^ a_init),
                      "the compact record built by %s lacks / adds fields %s compared with BasicReadAssignment.__init__ "
                      "(high-memory and default paths then resolve multimappers on different data)" % (name, sorted(a ^ a_init)))
         else:
-            ctx.ok("M4", "%s:%d" % (ISO, f.lineno), "%s defines the same %d fields as __init__" % (name, len(a)))
+            ctx.ok(tag, "%s:%d" % (ISO, f.lineno), "%s defines the same %d fields as __init__" % (name, len(a)))
     # derived fields computed identically: start/end from the *original* exons, genes/isoforms/penalty loops
     wc = wire.WireCtx(prog)
     wops = wire.writer_ops(wc, prog.func(ISO, "ReadAssignment.serialize"))
@@ -343,10 +343,10 @@ def m4(prog, ctx):
                 if node is st.value:
                     exon_pos = i
     if exon_pos is None or exon_pos >= len(wops) or wops[exon_pos][1] != "exons":
-        ctx.fail("M4", abr, abr._qualname, "exons", "start/end of the compact record are not taken from the serialised `exons` list "
+        ctx.fail(tag, abr, abr._qualname, "exons", "start/end of the compact record are not taken from the serialised `exons` list "
                  "(position %s holds %s)" % (exon_pos, wops[exon_pos][1] if exon_pos is not None and exon_pos < len(wops) else None))
     else:
-        ctx.ok("M4", "%s:%d" % (ISO, abr.lineno), "abridged reader takes start/end from wire position #%d = exons" % exon_pos)
+        ctx.ok(tag, "%s:%d" % (ISO, abr.lineno), "abridged reader takes start/end from wire position #%d = exons" % exon_pos)
     P_init = init.args.args[1].arg if len(init.args.args) > 1 else "read_assignment"
     want = {"start": ("%s.exons[0][0]" % P_init, "%s[0][0]" % ex_local), "end": ("%s.exons[-1][1]" % P_init, "%s[-1][1]" % ex_local)}
     for fld, (wi, wa) in want.items():
@@ -354,9 +354,9 @@ def m4(prog, ctx):
               and not isinstance(s.value, ast.Constant)]
         va = [src(s.value) for s in walk_no_nested(abr) if isinstance(s, ast.Assign) and src(s.targets[0]) == O_abr + "." + fld]
         if vi != [wi] or va != [wa]:
-            ctx.fail("M4", abr, abr._qualname, "%s: %s / %s" % (fld, vi, va), "%s is derived differently by the two constructors" % fld)
+            ctx.fail(tag, abr, abr._qualname, "%s: %s / %s" % (fld, vi, va), "%s is derived differently by the two constructors" % fld)
         else:
-            ctx.ok("M4", "%s:%d" % (ISO, abr.lineno), "%s derived from first/last original exon in both constructors" % fld)
+            ctx.ok(tag, "%s:%d" % (ISO, abr.lineno), "%s derived from first/last original exon in both constructors" % fld)
 
     def summary_block(f, obj):
         """Alpha-normalised text of the code that derives penalty / genes / isoforms from the match list: local names by order of
@@ -403,11 +403,11 @@ def m4(prog, ctx):
                             for x in ast.walk(prog.methods_of(prog.cls(ISO, "BasicReadAssignment"), inherited=False)[c.func.attr]))}
         return bool(helpers(fo) & helpers(fa_))
     if same_shared_helper():
-        ctx.ok("M4", "%s:%d" % (ISO, abr.lineno), "genes / isoforms / penalty come from one shared helper in both constructors")
+        ctx.ok(tag, "%s:%d" % (ISO, abr.lineno), "genes / isoforms / penalty come from one shared helper in both constructors")
     elif li is None or la is None or li != la:
-        ctx.fail("M4", abr, abr._qualname, "gene/isoform/penalty loop", "genes / isoforms / penalty are accumulated differently by the two constructors")
+        ctx.fail(tag, abr, abr._qualname, "gene/isoform/penalty loop", "genes / isoforms / penalty are accumulated differently by the two constructors")
     else:
-        ctx.ok("M4", "%s:%d" % (ISO, abr.lineno), "genes / isoforms / penalty accumulated by identical code (up to renaming of locals)")
+        ctx.ok(tag, "%s:%d" % (ISO, abr.lineno), "genes / isoforms / penalty accumulated by identical code (up to renaming of locals)")
 
 
 def m6(prog, ctx):
@@ -445,6 +445,45 @@ def m6(prog, ctx):
     ctx.floor("M6", "collection sites setting ReadAssignment.multimapper", n, 2)
 
 
+def m7(prog, ctx):
+    """Every record of a read that has more than one record is handed to the resolver: only `None` placeholders and reads with a single
+    record are left out."""
+    f = prog.func_inlined(DSP, "DatasetProcessor.prepare_multimapper_dict")
+    appends = [c for c in walk_no_nested(f) if isinstance(c, ast.Call) and isinstance(c.func, ast.Attribute) and c.func.attr == "append"
+               and isinstance(c.func.value, ast.Subscript) and src(c.func.value.slice).endswith(".read_id") and len(c.args) == 1]
+    if len(appends) != 1:
+        ctx.undecided("M7", f, f._qualname, "found %d statements filing a record under its read id, expected one" % len(appends))
+        return
+    ap = appends[0]
+    rec = src(ap.args[0])
+    st = ap
+    while not isinstance(st, ast.stmt):
+        st = st._parent
+    bad = None
+    for t, pol in flow.guard_facts(st, stop=f):
+        tt = src(t)
+        ok = False
+        if isinstance(t, ast.Compare) and len(t.ops) == 1 and isinstance(t.comparators[0], ast.Constant) and t.comparators[0].value is None \
+                and src(t.left) == rec:
+            ok = True                                            # placeholder record
+        elif "has_next" in tt or tt.startswith("loader") or isinstance(t, ast.Call) and "has_next" in tt:
+            ok = True
+        elif re.search(r"== 1\b", tt) and "count" in tt.lower() and rec + ".read_id" in tt:
+            ok = True                                            # the read has one record only
+        elif isinstance(t, ast.Compare) and isinstance(t.ops[0], (ast.In, ast.NotIn)) and rec + ".read_id" in tt and "count" in tt.lower():
+            ok = True
+        elif isinstance(t, ast.BoolOp) and all(("count" in src(v).lower() and rec + ".read_id" in src(v)) for v in t.values):
+            ok = True
+        if not ok:
+            bad = bad or (t, pol)
+    if bad:
+        ctx.fail("M7", ap, f._qualname, src(ap), "a record is handed to the multimapper resolver only if %s%s: a losing alignment that is left out "
+                 "never gets its 'suspended' verdict, so the read is reported for the winning locus and for this alignment as well"
+                 % ("" if bad[1] else "not ", src(bad[0])[:70]))
+    else:
+        ctx.ok("M7", "%s:%d" % (DSP, ap.lineno), "every record of a read with several records reaches the resolver (skipped: None, single-record reads)")
+
+
 def run(prog, ctx):
     ctx.rule("M1", "each index list of select_best_assignment gets its priority class from the predicates guarding its append; the "
                    "sequence of `if L: return` is strictly increasing in primary-unique-consistent < consistent < primary-"
@@ -456,6 +495,9 @@ def run(prog, ctx):
                    "is dominated by `not <read>.multimapper`")
     ctx.rule("M4", "BasicReadAssignment.__init__, deserialize and deserialize_from_read_assignment assign the same attribute set; "
                    "start/end come from the original exons (wire position checked); genes/isoforms/penalty loops are identical")
+    ctx.rule("M7", "guard vocabulary of prepare_multimapper_dict: the statement that files a record under its read id is controlled only by "
+                   "`record is None`, loader iteration and `the read has exactly one record` tests")
+    m7(prog, ctx)
     ctx.rule("M6", "in AlignmentCollector (helpers inlined) every assignment to <record>.multimapper is <alignment>.is_secondary with "
                    "<alignment> bound by an enclosing loop of the record")
     m6(prog, ctx)
